@@ -163,7 +163,8 @@ void Runner::op_start(Thread *t, int idx, const Op &op, OpRes &res) {
     for (auto &p : probes_)
       if (p.v != C.EINVAL_)
         viol("C14", "misuse-not-rejected", fmt("op=%s/state=in-child", p.n), fmt("%s in the forked child returned %lld, expected the invalid-argument error", p.n, p.v), idx);
-    if (acts & 1) {
+    // (reproc++ objects live on the C++ heap, which the simulated fork does not copy: destroy only through the C binding)
+    if ((acts & 1) && plan.w.binding == 0) {
       probe(P_destroy_in_child);
       void *p = api->destroy(hp);
       if (p) viol("C15", "destroy-returned-non-null", "state=in-child", "reproc_destroy in the forked child did not return NULL", idx);
